@@ -136,13 +136,59 @@ theorem probes_length (maps : List (List Nat)) :
   rw [C12.Lemmas.channelProbes_eq]
   exact C12.Lemmas.zipFlat_length (fun (_ : Nat) o => o) maps (List.range' 0 maps.length) (by simp)
 
+/-! The running offsets of `write_channel_data` for ARBITRARY non-empty channel maps (any naturals,
+duplicates allowed): `offset_{k+1} = max(map_k + offset_k) + 1`. -/
+
+theorem chanOffsets_getD_zero (maps : List (List Nat)) : (chanOffsets maps).getD 0 0 = 0 := by
+  cases maps <;> simp [chanOffsets, chanOffsetsFrom]
+
+theorem chanOffsetsFrom_succ (maps : List (List Nat)) :
+    ∀ (off k : Nat), k + 1 < maps.length →
+      (chanOffsetsFrom off maps).getD (k + 1) 0 =
+        ((maps.getD k []).map (· + (chanOffsetsFrom off maps).getD k 0)).foldl max 0 + 1 := by
+  induction maps with
+  | nil => intro off k hk; simp at hk
+  | cons m rest ih =>
+    intro off k hk
+    cases k with
+    | zero =>
+      cases rest with
+      | nil => simp at hk
+      | cons r rest => simp [chanOffsetsFrom]
+    | succ k =>
+      have hk' : k + 1 < rest.length := by simpa using hk
+      have := ih ((m.map (· + off)).foldl max 0 + 1) k hk'
+      simpa [chanOffsetsFrom] using this
+
+theorem chanOffsets_succ (maps : List (List Nat)) (k : Nat) (hk : k + 1 < maps.length) :
+    (chanOffsets maps).getD (k + 1) 0 =
+      ((maps.getD k []).map (· + (chanOffsets maps).getD k 0)).foldl max 0 + 1 :=
+  chanOffsetsFrom_succ maps 0 k hk
+
+/-- block structure of the merged arrays, for arbitrary maps -/
+theorem merged_block (maps : List (List Nat)) (k i : Nat) (hk : k < maps.length)
+    (hi : i < (maps.getD k []).length) :
+    (mergeChannelMaps maps).getD (prefixSum (maps.map List.length) k + i) 0 =
+        (maps.getD k []).getD i 0 + (chanOffsets maps).getD k 0 ∧
+    (channelProbes maps).getD (prefixSum (maps.map List.length) k + i) maps.length = k := by
+  have hlen : (chanOffsets maps).length = maps.length := C12.Lemmas.chanOffsetsFrom_length maps 0
+  have hlenr : (List.range' 0 maps.length).length = maps.length := by simp
+  refine ⟨?_, ?_⟩
+  · have := C12.Lemmas.zipFlat_get (fun x o => x + o) maps (chanOffsets maps) k i hlen hk hi
+    rw [mergeChannelMaps, List.getD_eq_getElem?_getD, this]
+    generalize maps.getD k [] = row at hi ⊢
+    simp [List.getD_eq_getElem?_getD, List.getElem?_eq_getElem hi]
+  · have := C12.Lemmas.zipFlat_get (fun (_ : Nat) o => o) maps (List.range' 0 maps.length) k i hlenr hk hi
+    rw [C12.Lemmas.channelProbes_eq, List.getD_eq_getElem?_getD, this, List.getElem?_eq_getElem hi]
+    simp [List.getD_eq_getElem?_getD, hk]
+
 /-- everything known about position `p` of the merged arrays -/
-theorem block_facts (maps : List (List Nat)) (h : MapsOK maps) (p : Nat)
+theorem block_facts (maps : List (List Nat)) (p : Nat)
     (hp : p < (maps.map List.length).sum) :
     ∃ k i, k < maps.length ∧ i < (maps.getD k []).length ∧
       p = prefixSum (maps.map List.length) k + i ∧
       (mergeChannelMaps maps).getD p 0 =
-        (maps.getD k []).getD i 0 + prefixSum (maps.map List.length) k ∧
+        (maps.getD k []).getD i 0 + (chanOffsets maps).getD k 0 ∧
       (channelProbes maps).getD p 0 = k ∧
       ((maps.flatten).map Int.ofNat).getD p 0 = Int.ofNat ((maps.getD k []).getD i 0) := by
   obtain ⟨k, hk, h1, h2⟩ := block_decomp _ p hp
@@ -153,7 +199,7 @@ theorem block_facts (maps : List (List Nat)) (h : MapsOK maps) (p : Nat)
   have hi : p - prefixSum (maps.map List.length) k < (maps.getD k []).length := by omega
   have hpe : p = prefixSum (maps.map List.length) k + (p - prefixSum (maps.map List.length) k) := by
     omega
-  obtain ⟨c1, c2, _, c4⟩ := C12.Lemmas.channels_block maps h k _ hk' hi
+  obtain ⟨c1, c2⟩ := merged_block maps k _ hk' hi
   rw [← hpe] at c1 c2
   refine ⟨k, _, hk', hi, hpe, c1, ?_, ?_⟩
   · have hlt : p < (channelProbes maps).length := by rw [probes_length]; exact hp
@@ -165,7 +211,27 @@ theorem block_facts (maps : List (List Nat)) (h : MapsOK maps) (p : Nat)
     rw [List.getD_eq_getElem?_getD, List.getElem?_map, this, List.getElem?_eq_getElem hi]
     simp [List.getD_eq_getElem?_getD, hi]
 
-theorem uniqueNat_channelProbes (maps : List (List Nat)) (h : MapsOK maps) :
+theorem block_facts' (maps : List (List Nat)) (k i : Nat) (hk : k < maps.length)
+    (hi : i < (maps.getD k []).length) :
+    prefixSum (maps.map List.length) k + i < (maps.map List.length).sum ∧
+    (mergeChannelMaps maps).getD (prefixSum (maps.map List.length) k + i) 0 =
+        (maps.getD k []).getD i 0 + (chanOffsets maps).getD k 0 ∧
+    (channelProbes maps).getD (prefixSum (maps.map List.length) k + i) 0 = k := by
+  have hsz : (maps.map List.length).getD k 0 = (maps.getD k []).length := by
+    simp [List.getD_eq_getElem?_getD, hk]
+  have hlt : prefixSum (maps.map List.length) k + i < (maps.map List.length).sum := by
+    have h1 := prefixSum_succ (maps.map List.length) k
+    have h2 := prefixSum_le_sum (maps.map List.length) (k + 1)
+    omega
+  obtain ⟨c1, c2⟩ := merged_block maps k i hk hi
+  refine ⟨hlt, c1, ?_⟩
+  have hlt' : prefixSum (maps.map List.length) k + i < (channelProbes maps).length := by
+    rw [probes_length]; exact hlt
+  rw [List.getD_eq_getElem?_getD, List.getElem?_eq_getElem hlt'] at c2 ⊢
+  simpa using c2
+
+/-- every probe has a channel, so the probe labels met by the export loop are `0 .. n-1` -/
+theorem uniqueNat_channelProbes (maps : List (List Nat)) (h : ∀ m ∈ maps, m ≠ []) :
     uniqueNat (channelProbes maps) = List.range maps.length := by
   obtain ⟨h1, h2⟩ := C07.Lemmas.unique_spec ((channelProbes maps).map Int.ofNat)
   apply sorted_ext _ _ h1 List.pairwise_lt_range
@@ -183,7 +249,7 @@ theorem uniqueNat_channelProbes (maps : List (List Nat)) (h : MapsOK maps) :
   constructor
   · intro hv
     obtain ⟨p, hp, rfl⟩ := List.getElem_of_mem hv
-    obtain ⟨k, i, hk, _, _, _, hpk, _⟩ := block_facts maps h p (by rw [← probes_length]; exact hp)
+    obtain ⟨k, i, hk, _, _, _, hpk, _⟩ := block_facts maps p (by rw [← probes_length]; exact hp)
     rw [List.getD_eq_getElem?_getD, List.getElem?_eq_getElem hp] at hpk
     simp only [Option.getD_some] at hpk
     omega
@@ -191,55 +257,27 @@ theorem uniqueNat_channelProbes (maps : List (List Nat)) (h : MapsOK maps) :
     have hne : maps.getD v [] ≠ [] := by
       have : maps.getD v [] ∈ maps := by
         rw [List.getD_eq_getElem?_getD, List.getElem?_eq_getElem hv]; simp
-      exact (h _ this).1
+      exact h _ this
     have hi : 0 < (maps.getD v []).length := List.length_pos_iff.mpr hne
-    have := (C12.Lemmas.channels_block maps h v 0 hv hi).2.1
-    rw [List.getD_eq_getElem?_getD] at this
-    cases hq : (channelProbes maps)[prefixSum (maps.map List.length) v + 0]? with
-    | none => rw [hq] at this; simp at this; omega
-    | some q =>
-      rw [hq] at this
-      simp only [Option.getD_some] at this
-      subst this
-      exact List.mem_of_getElem? hq
+    obtain ⟨b1, _, b3⟩ := block_facts' maps v 0 hv hi
+    have hlt : prefixSum (maps.map List.length) v + 0 < (channelProbes maps).length := by
+      rw [probes_length]; exact b1
+    rw [List.getD_eq_getElem?_getD, List.getElem?_eq_getElem hlt] at b3
+    simp only [Option.getD_some] at b3
+    rw [← b3]
+    exact List.getElem_mem hlt
 
-
-theorem block_facts' (maps : List (List Nat)) (h : MapsOK maps) (k i : Nat) (hk : k < maps.length)
-    (hi : i < (maps.getD k []).length) :
-    prefixSum (maps.map List.length) k + i < (maps.map List.length).sum ∧
-    (mergeChannelMaps maps).getD (prefixSum (maps.map List.length) k + i) 0 =
-        (maps.getD k []).getD i 0 + prefixSum (maps.map List.length) k ∧
-    (channelProbes maps).getD (prefixSum (maps.map List.length) k + i) 0 = k := by
-  have hsz : (maps.map List.length).getD k 0 = (maps.getD k []).length := by
-    simp [List.getD_eq_getElem?_getD, hk]
-  have hlt : prefixSum (maps.map List.length) k + i < (maps.map List.length).sum := by
-    have h1 := prefixSum_succ (maps.map List.length) k
-    have h2 := prefixSum_le_sum (maps.map List.length) (k + 1)
-    omega
-  obtain ⟨c1, c2, _, _⟩ := C12.Lemmas.channels_block maps h k i hk hi
-  refine ⟨hlt, c1, ?_⟩
-  have hlt' : prefixSum (maps.map List.length) k + i < (channelProbes maps).length := by
-    rw [probes_length]; exact hlt
-  rw [List.getD_eq_getElem?_getD, List.getElem?_eq_getElem hlt'] at c2 ⊢
-  simpa using c2
-
-theorem step_inv (maps : List (List Nat)) (h : MapsOK maps) (k : Nat) (hk : k < maps.length)
+theorem step_inv (maps : List (List Nat)) (k : Nat) (hk : k < maps.length)
     (st : List Int × Nat) (hlen : st.1.length = (maps.map List.length).sum)
-    (hoff : st.2 = prefixSum (maps.map List.length) k)
+    (hoff : st.2 = (chanOffsets maps).getD k 0)
     (hval : ∀ p, p < (maps.map List.length).sum → st.1.getD p 0 =
       if (channelProbes maps).getD p 0 < k then ((maps.flatten).map Int.ofNat).getD p 0 else 0) :
     (stepFn (mergeChannelMaps maps) (channelProbes maps) st k).1.length = (maps.map List.length).sum ∧
-    (stepFn (mergeChannelMaps maps) (channelProbes maps) st k).2 =
-      prefixSum (maps.map List.length) (k + 1) ∧
+    (k + 1 < maps.length → (stepFn (mergeChannelMaps maps) (channelProbes maps) st k).2 =
+      (chanOffsets maps).getD (k + 1) 0) ∧
     ∀ p, p < (maps.map List.length).sum →
       (stepFn (mergeChannelMaps maps) (channelProbes maps) st k).1.getD p 0 =
         if (channelProbes maps).getD p 0 < k + 1 then ((maps.flatten).map Int.ofNat).getD p 0 else 0 := by
-  have hsz : (maps.map List.length).getD k 0 = (maps.getD k []).length := by
-    simp [List.getD_eq_getElem?_getD, hk]
-  have hmk : maps.getD k [] ∈ maps := by
-    rw [List.getD_eq_getElem?_getD, List.getElem?_eq_getElem hk]; simp
-  obtain ⟨hne, hperm⟩ := h _ hmk
-  have hpos : 0 < (maps.getD k []).length := List.length_pos_iff.mpr hne
   have hidx : ∀ p, p ∈ ((List.range (mergeChannelMaps maps).length).filter fun i =>
       (channelProbes maps).getD i 0 == k) ↔
       p < (maps.map List.length).sum ∧ (channelProbes maps).getD p 0 = k := by
@@ -248,38 +286,34 @@ theorem step_inv (maps : List (List Nat)) (h : MapsOK maps) (k : Nat) (hk : k < 
   unfold stepFn
   refine ⟨?_, ?_, ?_⟩
   · simp only [setFold_length]; exact hlen
-  · simp only
-    rw [prefixSum_succ, hsz]
-    have hup : (((List.range (mergeChannelMaps maps).length).filter fun i =>
-        (channelProbes maps).getD i 0 == k).map fun i => (mergeChannelMaps maps).getD i 0).foldl max 0 ≤
-        prefixSum (maps.map List.length) k + (maps.getD k []).length - 1 := by
-      apply C12.Lemmas.nat_foldl_max_le _ _ 0 (by omega)
+  · intro hk1
+    simp only
+    rw [chanOffsets_succ maps k hk1]
+    congr 1
+    apply Nat.le_antisymm
+    · apply C12.Lemmas.nat_foldl_max_le _ _ 0 (by omega)
       intro v hv
       obtain ⟨p, hp, rfl⟩ := List.mem_map.mp hv
       obtain ⟨hpN, hpk⟩ := (hidx p).1 hp
-      obtain ⟨k', i, _, hi, _, hc, hpr, _⟩ := block_facts maps h p hpN
+      obtain ⟨k', i, _, hi, _, hc, hpr, _⟩ := block_facts maps p hpN
       rw [hpk] at hpr
       subst hpr
       rw [hc]
-      have hmem : (maps.getD k []).getD i 0 ∈ maps.getD k [] := getD_mem _ i hi
-      have := List.mem_range.mp ((hperm.mem_iff).mp hmem)
-      omega
-    have hlo : (maps.getD k []).length - 1 + prefixSum (maps.map List.length) k ≤
-        (((List.range (mergeChannelMaps maps).length).filter fun i =>
-        (channelProbes maps).getD i 0 == k).map fun i => (mergeChannelMaps maps).getD i 0).foldl max 0 := by
       apply (C12.Lemmas.nat_foldl_max _ 0).2
-      have hmem : (maps.getD k []).length - 1 ∈ maps.getD k [] :=
-        (hperm.mem_iff).mpr (List.mem_range.mpr (by omega))
-      obtain ⟨i, hi, hiv⟩ := List.getElem_of_mem hmem
-      obtain ⟨b1, b2, b3⟩ := block_facts' maps h k i hk hi
+      exact List.mem_map.mpr ⟨_, getD_mem _ i hi, rfl⟩
+    · apply C12.Lemmas.nat_foldl_max_le _ _ 0 (by omega)
+      intro v hv
+      obtain ⟨x, hx, rfl⟩ := List.mem_map.mp hv
+      obtain ⟨i, hi, rfl⟩ := List.getElem_of_mem hx
+      obtain ⟨b1, b2, b3⟩ := block_facts' maps k i hk hi
+      apply (C12.Lemmas.nat_foldl_max _ 0).2
       apply List.mem_map.mpr
       refine ⟨prefixSum (maps.map List.length) k + i, (hidx _).2 ⟨b1, b3⟩, ?_⟩
-      rw [b2, getD_eq_getElem _ i hi, hiv]
-    omega
+      rw [b2, getD_eq_getElem _ i hi]
   · intro p hp
     simp only
     rw [setFold_get _ _ _ p (by omega)]
-    obtain ⟨k', i, _, hi, _, hc, hpr, hT⟩ := block_facts maps h p hp
+    obtain ⟨k', i, _, hi, _, hc, hpr, hT⟩ := block_facts maps p hp
     by_cases hpk : (channelProbes maps).getD p 0 = k
     · rw [hpk] at hpr
       subst hpr
@@ -290,12 +324,12 @@ theorem step_inv (maps : List (List Nat)) (h : MapsOK maps) (k : Nat) (hk : k < 
       · rw [if_pos hlt, if_pos (by omega)]
       · rw [if_neg hlt, if_neg (by omega)]
 
-theorem fold_inv (maps : List (List Nat)) (h : MapsOK maps) :
+theorem fold_inv (maps : List (List Nat)) :
     ∀ k, k ≤ maps.length →
       ((List.range k).foldl (stepFn (mergeChannelMaps maps) (channelProbes maps))
         (List.replicate (mergeChannelMaps maps).length 0, 0)).1.length = (maps.map List.length).sum ∧
-      ((List.range k).foldl (stepFn (mergeChannelMaps maps) (channelProbes maps))
-        (List.replicate (mergeChannelMaps maps).length 0, 0)).2 = prefixSum (maps.map List.length) k ∧
+      (k < maps.length → ((List.range k).foldl (stepFn (mergeChannelMaps maps) (channelProbes maps))
+        (List.replicate (mergeChannelMaps maps).length 0, 0)).2 = (chanOffsets maps).getD k 0) ∧
       ∀ p, p < (maps.map List.length).sum →
         ((List.range k).foldl (stepFn (mergeChannelMaps maps) (channelProbes maps))
           (List.replicate (mergeChannelMaps maps).length 0, 0)).1.getD p 0 =
@@ -304,26 +338,28 @@ theorem fold_inv (maps : List (List Nat)) (h : MapsOK maps) :
   induction k with
   | zero =>
     intro _
-    refine ⟨by simp [merge_length], by simp [C12.Lemmas.prefixSum_zero], ?_⟩
+    refine ⟨by simp [merge_length], fun _ => by rw [chanOffsets_getD_zero]; rfl, ?_⟩
     intro p hp
     simp [List.getD_eq_getElem?_getD, merge_length, hp]
   | succ k ih =>
     intro hk
     obtain ⟨i1, i2, i3⟩ := ih (by omega)
     rw [List.range_succ, List.foldl_append]
-    exact step_inv maps h k (by omega) _ i1 i2 i3
+    exact step_inv maps k (by omega) _ i1 (i2 (by omega)) i3
 
-theorem rawInd_inverts_merge (maps : List (List Nat)) (h : MapsOK maps) :
+/-- holds for ANY non-empty channel maps (arbitrary naturals, duplicates allowed); an empty map
+followed by a non-empty one breaks it (`[[], [0]]` exports `[1]`) -/
+theorem rawInd_inverts_merge (maps : List (List Nat)) (h : ∀ m ∈ maps, m ≠ []) :
     exportRawInd (mergeChannelMaps maps) (channelProbes maps) = (maps.flatten).map Int.ofNat := by
   rw [exportRawInd_eq, uniqueNat_channelProbes maps h]
-  obtain ⟨i1, _, i3⟩ := fold_inv maps h maps.length (Nat.le_refl _)
+  obtain ⟨i1, _, i3⟩ := fold_inv maps maps.length (Nat.le_refl _)
   have hTlen : ((maps.flatten).map Int.ofNat).length = (maps.map List.length).sum := by
     rw [List.length_map, List.length_flatten]
   apply List.ext_getElem (by rw [i1, hTlen])
   intro p hp1 hp2
   have hp : p < (maps.map List.length).sum := by rw [← i1]; exact hp1
   have := i3 p hp
-  obtain ⟨k', i, hk', _, _, _, hpr, _⟩ := block_facts maps h p hp
+  obtain ⟨k', i, hk', _, _, _, hpr, _⟩ := block_facts maps p hp
   rw [if_pos (by omega), List.getD_eq_getElem?_getD, List.getD_eq_getElem?_getD,
     List.getElem?_eq_getElem hp1, List.getElem?_eq_getElem hp2] at this
   simpa using this
@@ -535,11 +571,8 @@ theorem nearestOK_of (pos : List (Rat × Rat)) (probes : List Nat) (peak ncw : N
     simpa [leInf] using hab
   · exact List.mem_filter.2 ⟨List.mem_range.2 hp, by simp⟩
 
--- `hl` and `hd` are not needed for the proof (`getD` defaults; the spec only asks for a zero
--- distance at the head, which holds for the sorted order whether or not positions are distinct)
-set_option linter.unusedVariables false in
 theorem nearest_ok (pos : List (Rat × Rat)) (probes : List Nat) (peak ncw : Nat)
-    (hp : peak < pos.length) (hl : probes.length = pos.length) (hd : pos.Nodup) :
+    (hp : peak < pos.length) :
     nearestOK pos probes peak ncw (nearestSameProbe pos probes peak ncw) = true := by
   unfold nearestSameProbe
   simp only
@@ -564,15 +597,19 @@ theorem nearest_ok (pos : List (Rat × Rat)) (probes : List Nat) (peak ncw : Nat
 
 /-! ### waveform columns, cluster depths -/
 
-theorem waveforms_eq (wfs : List Mat) (inds : List (List Nat)) (hlen : inds.length = wfs.length)
-    (t s j : Nat) (ht : t < wfs.length) (hs : s < (wfs.getD t []).length)
+theorem waveforms_eq (wfs : List Mat) (inds : List (List Nat))
+    (t s j : Nat)
     (hj : j < (inds.getD t []).length) :
     (((exportWaveforms wfs inds).getD t []).getD s []).getD j 0 =
       ((wfs.getD t []).getD s []).getD ((inds.getD t []).getD j 0) 0 := by
-  have ht' : t < inds.length := by omega
-  simp only [List.getD_eq_getElem?_getD, List.getElem?_eq_getElem ht, List.getElem?_eq_getElem ht',
-    Option.getD_some] at hs hj ⊢
-  simp [exportWaveforms, ht, ht', hs, hj]
+  have ht' : t < inds.length := C12.Lemmas.lt_length_of_lt_getD_length inds t j hj
+  by_cases ht : t < wfs.length
+  · simp only [List.getD_eq_getElem?_getD, List.getElem?_eq_getElem ht, List.getElem?_eq_getElem ht',
+      Option.getD_some] at hj ⊢
+    by_cases hs : s < wfs[t].length
+    · simp [exportWaveforms, ht, ht', hs, hj]
+    · simp [exportWaveforms, ht, ht', hs]
+  · simp [exportWaveforms, List.getD_eq_getElem?_getD, ht]
 
 theorem cluster_depth_eq (ys : List Rat) (peaks nanIdx : List Nat) (c : Nat) (hc : c < peaks.length) :
     (clusterDepths ys peaks nanIdx).getD c none =
